@@ -458,7 +458,65 @@ func emitFront(o *Out, r *RNG, q frontReq) {
 	}
 }
 
+// srv.opt: the raw answer to OPTIONS (the sorted Allow set, the number of object look-ups it cost) at every level, for
+// an existing and a missing collection / object, under several mount prefixes in both spellings and with and without
+// the trailing slash of the request path - answered by the model's `options` (C12_options_by_level)
+func emitSrvOptions(o *Out) {
+	for _, srv := range []string{"cal", "card"} {
+		for _, px := range []string{"", "/p", "/a/b/c", "/my dav"} {
+			for _, pslash := range []bool{false, true} {
+				for lvl := 0; lvl <= 5; lvl++ {
+					for _, ex := range []bool{true, false} {
+						for _, trim := range []bool{false, true} {
+							q := frontReq{srv: srv, method: "OPTIONS", level: lvl, exists: ex, ctype: "none", body: "empty", depth: "absent", ow: "absent", dst: "absent", prefix: px, prefixSlash: pslash}
+							res := guard(func() string {
+								req := httptest.NewRequest("OPTIONS", "http://example.com/", nil)
+								req.URL.Path = frontPath(q)
+								if trim && len(req.URL.Path) > 1 {
+									req.URL.Path = strings.TrimSuffix(req.URL.Path, "/")
+								}
+								rec := httptest.NewRecorder()
+								reads := 0
+								if srv == "cal" {
+									b := &calBackend{principal: px + "/u/", homeSet: px + "/u/cal/", calendars: []caldav.Calendar{{Path: px + "/u/cal/a/", Name: "A"}},
+										objects: map[string][]caldav.CalendarObject{px + "/u/cal/a/": {{Path: px + "/u/cal/a/x.ics", ETag: "e1", Data: simpleCal("u1", "s")}}}}
+									(&caldav.Handler{Backend: b, Prefix: q.handlerPrefix()}).ServeHTTP(rec, req)
+									for _, c := range b.log.take() {
+										if strings.HasPrefix(c, "GetCalendarObject ") {
+											reads++
+										}
+									}
+								} else {
+									b := &cardBackend{principal: px + "/u/", homeSet: px + "/u/ab/", books: []carddav.AddressBook{{Path: px + "/u/ab/a/", Name: "A"}},
+										objects: map[string][]carddav.AddressObject{px + "/u/ab/a/": {{Path: px + "/u/ab/a/x.vcf", ETag: "e1", Card: simpleCard("A B")}}}}
+									(&carddav.Handler{Backend: b, Prefix: q.handlerPrefix()}).ServeHTTP(rec, req)
+									for _, c := range b.log.take() {
+										if strings.HasPrefix(c, "GetAddressObject ") {
+											reads++
+										}
+									}
+								}
+								var allow []string
+								for _, v := range rec.Result().Header.Values("Allow") {
+									for _, m := range strings.Split(v, ",") {
+										allow = append(allow, strings.TrimSpace(m))
+									}
+								}
+								sort.Strings(allow)
+								return fmt.Sprintf("%d %s %d", rec.Code, strings.Join(allow, ","), reads)
+							})
+							o.Stat("srvopt." + srv)
+							o.Emit("srv.opt", fmt.Sprintf("%s %d %s", srv, lvl, b01(ex)), res)
+						}
+					}
+				}
+			}
+		}
+	}
+}
+
 func famSrvFront(o *Out, r *RNG, thorough bool) {
+	emitSrvOptions(o)
 	srvs := []string{"cal", "card", "prin"}
 	// exhaustive: server x method x level x content type x body class (headers at their defaults)
 	for _, srv := range srvs {
